@@ -186,7 +186,7 @@ def run(run, tier, loadcfg):
         global CX
         CX = cx
         from rules import C06
-        C06.check_used(run, cx, cfg, [b for b in fx_.bodies.values() if b['crate'] == 'dasp_signal' and 'Buffered' in b['path']], 4)
+        C06.check_used(run, cx, cfg, [b for b in fx_.bodies.values() if b['crate'] == 'dasp_signal' and 'Buffered' in b['path']], 4, handed=C06.B)
         si, ri = cx.field_index(KEY, 'signal'), cx.field_index(KEY, 'ring_buffer')
         if si is None or ri is None:
             run.fail('buffered.fields', KEY, cfg, 'Buffered { signal, ring_buffer } not found')
